@@ -25,7 +25,13 @@ def load_prop(pid):
 STUB_CLASSES = ("Rec", "Stub", "Loc", "TD", "Tok", "WStr")
 
 
+class HarnessLimit(Exception):
+    """raised by a harness body when the code under test no longer has the shape the harness can drive"""
+
+
 def _stub_limit(e):
+    if isinstance(e, HarnessLimit):
+        return True
     if isinstance(e, AttributeError):
         import re
         m = re.match(r"'(\w+)' object has no attribute '(\w+)'", str(e))
